@@ -1,12 +1,26 @@
 /* C16 driver: plays a module under a scripted history of play / position-control calls and prints, per frame,
  * the frame info ("F ...") and optionally the voice table ("D ...").
- *   c16_drv <module> <rate> <format> <numvoc> <mode|-1> <dumpvoices 0/1>
+ *   c16_drv <module> <rate> <format> <numvoc> <mode|-1> <dumpvoices 0/1> [<report sequencer steps 0/1>]
  * stdin: "P n" play n frames | "SP pos" | "SR row" | "NX" | "PV" | "SK ms" | "RS" | "ST" | "MODE m" (xmp_set_player MODE while playing)
  * stdout: header "M len nseq | xxo | rows", "C rate mono 8bit tf_hex rr_hex", "V maxvoc vchans ntracks"; then "OP name ret" / "F ..." / "D ..." / "END ret"
  */
 #include "vcommon.h"
 #include "rng.h"
 #include "mixer.h"
+
+/* hook H7: the position / flow state at entry (phase 0) and exit (phase 1) of next_order (0) and next_row (1), with the facts about
+ * the playing sequence the step uses: "SQ which phase | ord row pos frame pbreak jump delay jumpline loop_dest loop_param num_rows
+ * rowdelay rowdelay_set | entry_point rst_in_sequence" */
+extern void (*libxmp_verif_seqstep)(struct context_data *ctx, int which, int phase);
+static void seqstep(struct context_data *ctx, int which, int phase)
+{
+	struct player_data *p = &ctx->p; struct flow_control *f = &p->flow; struct xmp_module *mod = &ctx->m.mod;
+	int seq = p->sequence;
+	int entry = (seq >= 0 && seq < ctx->m.num_sequences) ? ctx->m.seq_data[seq].entry_point : 0;
+	int rin = (mod->rst >= 0 && mod->rst < 256) ? (p->sequence_control[mod->rst] == seq) : 0;
+	printf("SQ %d %d | %d %d %d %d %d %d %d %d %d %d %d %d %d | %d %d\n", which, phase, p->ord, p->row, p->pos, p->frame, f->pbreak, f->jump, f->delay,
+		f->jumpline, f->loop_dest, f->loop_param, f->num_rows, f->rowdelay, f->rowdelay_set, entry, rin);
+}
 
 int main(int argc, char **argv)
 {
@@ -35,6 +49,8 @@ int main(int argc, char **argv)
 	for (i = 0; i < mi.mod->pat; i++) printf(" %d", mi.mod->xxp[i] ? mi.mod->xxp[i]->rows : -1);
 	printf("\nC %d %d %d %a %a\n", rate, (format & XMP_FORMAT_MONO) ? 1 : 0, (format & XMP_FORMAT_8BIT) ? 1 : 0, ctx->m.time_factor, ctx->m.rrate);
 	printf("V %d %d %d\n", ctx->p.virt.maxvoc, ctx->p.virt.virt_channels, ctx->p.virt.num_tracks);
+	printf("MF %d %d %d\n", mi.mod->pat, mi.mod->rst, (ctx->m.quirk & QUIRK_MARKER) ? 1 : 0);
+	if (argc > 7 && atoi(argv[7])) libxmp_verif_seqstep = seqstep;
 	while (fgets(line, sizeof line, stdin)) {
 		int a = 0, r;
 		char op[16];
